@@ -1094,6 +1094,20 @@ def sc_callbacks_mutate_subject(r):
 """ + "".join(parts), grow=grow, pad=pad, nk=r.randint(5, 60), k=r.randint(1, 4))]
 
 
+def sc_peg_extra_args_stack_growth(r):
+    """the extra arguments of peg/match & friends are read by (argument n) after the grammar has called back into
+    Janet; the callback runs on the caller's fiber and makes its stack grow (move): what (argument n) reads must
+    not live in the old stack (seeded change C01-14)"""
+    d = r.choice([40, 150, 400])
+    return [T(r"""
+(defn deep [n] (if (zero? n) 0 (+ 1 (deep (dec n)))))
+(def g-extra (peg/compile ~(* (cmt (<- 1) ,(fn [x] (deep $d) (churn $k) x)) (argument 0) (argument 1) (cmt (<- 1) ,(fn [x] (deep (* 2 $d)) x)) (argument 1))))
+(emit "match-extra" (resume (fiber/new (fn [] (peg/match g-extra "abc" 0 (mkstr 1) (keyword (mkstr 2)))))))
+(emit "replace-extra" (resume (fiber/new (fn [] (peg/replace-all ~(* (<- (range "09")) (argument 0)) (fn [& caps] (deep $d) (churn 1) (string ;caps)) "a1b2c3" 0 (mkstr 3))))))
+(emit "find-extra" (resume (fiber/new (fn [] (peg/find-all ~(* (cmt (<- (range "09")) ,(fn [x] (deep $d) x)) (argument 0)) "a1b2" 0 (mkstr 4))))))
+""", d=d, k=r.randint(1, 4))]
+
+
 def sc_symbol_collisions(r):
     """thousands of interned symbols / keywords, live ones interleaved with ones that die: the cache's probe chains
     run over tombstones left by the sweep and entries moved forward over them; every live name must still
@@ -1169,6 +1183,7 @@ def sc_duplex_stream_two_fibers(r):
 
 
 SCENARIOS = {
+    "peg_extra_args_stack_growth": sc_peg_extra_args_stack_growth,
     "callbacks_mutate_subject": sc_callbacks_mutate_subject,
     "symbol_collisions": sc_symbol_collisions,
     "duplex_stream_two_fibers": sc_duplex_stream_two_fibers,
